@@ -43,8 +43,11 @@ CLAIMED = {
              "non-degeneracy, order dividing r, identity handling, product rule for multi-pairings, multiplicativity "
              "and order of the final exponentiation.",
         note="Inputs are group members or the identity. Tower non-residues / twist coefficients are parameters read "
-             "from the library and checked for consistency (irreducibility, b' = b/xi or b*xi). k = 8/16/18/24/48 "
-             "families are not modelled yet (listed in evidence notes).",
+             "from the library and checked for consistency (irreducibility, b' = b/xi or b*xi). Thorough tier: the same "
+             "oracles over the reference towers of degree 8, 16, 18, 24, 48 (GMT8_P544, K16 / AFG16 / FM16, K18 / FM18, "
+             "B24_P315 / P317 / P509, B48_P575) and seven further k = 12 sets, each with the oatep / tatep / weilp and "
+             "multi-pairing variants the library offers for that degree; SG54_P569 is wired but blocked by the listed "
+             "C10 finding fp54_frb.",
         tech=PBT + "an independent Fp12 tower + curve reference; metamorphic bilinearity oracle"),
     "C08": dict(
         text="Three generated searches with ASan+UBSan as part of the oracle: (1) every other check runs on the same "
@@ -141,7 +144,8 @@ CLAIMED = {
              "scalars incl. 0, negative, >= r; on BN-P256, SM9-P256 and BLS12-381 (the configuration where G1 has a "
              "cofactor).",
         note="Multiplications / exponentiations are compared for members only (order-dependent decompositions by design), "
-             "except the *_mul_any forms documented for arbitrary points.",
+             "except the *_mul_any forms documented for arbitrary points. Thorough tier: the same targets on 18 further "
+             "parameter sets of embedding degree 8, 12, 16, 18, 24, 48 (one set per build configuration).",
         tech=PBT + "reference subgroup tests and reference powers in an independent curve / Fp12 model (two-sided)"),
     "C13": dict(
         text="Generated-input search over ep_map, ep_map_basic / sswum / swift, ep_map_rnd (uniform strings SOLVED by the "
